@@ -281,6 +281,18 @@ func runExec(r *hlib.Run, tc *toolchain) {
 			}
 			ops := []string{"case " + j.name + "." + p.sname + " " + j.sexprs[i]}
 			outs := []string{line(cl, 0)}
+			// the control skeleton of every method's emitted C body vs the
+			// modelled statement lowering (skel.go)
+			nSkel := 0
+			if j.res.csrcLN != "" && !j.res.lnDiffer {
+				for _, m := range p.methods {
+					ops = append(ops, "skel "+m.name)
+					outs = append(outs, cSkeleton(j.res.csrcLN, "wuffs_"+j.name+"__"+p.sname+"__"+m.name))
+					nSkel++
+				}
+			} else {
+				r.Count("skel:no-line-number-variant")
+			}
 			for k, c := range h {
 				ops = append(ops, callLine(c))
 				outs = append(outs, line(cl, k+1))
@@ -294,7 +306,7 @@ func runExec(r *hlib.Run, tc *toolchain) {
 				r.Fail("cc-diff", "gcc -O2 and clang -O1 builds of the same generated C print different traces:\nclang: "+
 					strings.Join(cl.lines, " / ")+"\ngcc:   "+strings.Join(gc.lines, " / ")+"\n"+firstLines(gc.stderr, 4), replay)
 			}
-			pend = append(pend, &pendingCase{ops: ops, outs: outs, replay: replay, prog: p, hist: h, sanFailed: cl.failed || len(cl.lines) != len(h)+1})
+			pend = append(pend, &pendingCase{ops: ops, outs: outs, nSkel: nSkel, replay: replay, prog: p, hist: h, sanFailed: cl.failed || len(cl.lines) != len(h)+1})
 		}
 	}
 	// phase 4: the reference semantics (Lean interpreter) on the same cases; a
@@ -305,7 +317,18 @@ func runExec(r *hlib.Run, tc *toolchain) {
 		undef := false
 		diff := -1
 		if ref != nil {
+			for k := 1; k <= pc.nSkel; k++ {
+				if m := ref[ci][k]; m != pc.outs[k] {
+					r.Fail("skel-diff", "the control skeleton of the C emitted for method `"+strings.TrimPrefix(pc.ops[k], "skel ")+
+						"` differs from what the modelled statement lowering (Model/CStmt.lean lowerL) writes:\n  emitted C: "+pc.outs[k]+
+						"\n  model:     "+m, pc.replay)
+					break
+				}
+			}
 			for k := range pc.ops {
+				if k >= 1 && k <= pc.nSkel {
+					continue
+				}
 				m := ref[ci][k]
 				if strings.HasPrefix(m, "undef:") || strings.HasPrefix(m, "unsupported:") {
 					undef = true
@@ -325,6 +348,16 @@ func runExec(r *hlib.Run, tc *toolchain) {
 		for k := range pc.ops {
 			r.Op(pc.ops[k], pc.outs[k])
 			if k == 0 {
+				continue
+			}
+			if k <= pc.nSkel {
+				r.Count("skel:methods")
+				if strings.Contains(pc.outs[k], "G:") {
+					r.Count("skel:methods-with-goto")
+				}
+				if strings.Contains(pc.outs[k], "D{") {
+					r.Count("skel:methods-with-do-while-0")
+				}
 				continue
 			}
 			out := pc.outs[k]
@@ -362,6 +395,7 @@ func runExec(r *hlib.Run, tc *toolchain) {
 
 type pendingCase struct {
 	ops, outs []string
+	nSkel     int // ops[1 : 1+nSkel] are the `skel` ops
 	replay    string
 	prog      *program
 	hist      []call
